@@ -45,6 +45,9 @@ func genLookupNode(r *prng) *plan {
 		p.Cfg["cancel_ms"] = int64(1 + r.intn(4000))
 	}
 	p.Cfg["maxdelay_ms"] = int64(1 + r.intn(900))
+	if r.chance(6) {
+		p.Cfg["precancel"] = 1
+	}
 	p.Cfg["fanout"] = int64(1 + r.intn(20))
 	p.Ops = []opSpec{{K: "lookup", N: []int64{int64(r.u64() >> 1)}}}
 	if r.chance(30) {
@@ -196,6 +199,12 @@ func runLookupNode(seed uint64) {
 		}
 		ctx, cancel := context.WithCancel(context.Background())
 		cancelled := false
+		if p.cfg("precancel") == 1 {
+			// cancelled before it starts: the first queries are spawned and the cancellation is seen at once
+			cancelled = true
+			w.fault("lookup_cancelled_before_start")
+			cancel()
+		}
 		if ms := p.cfg("cancel_ms"); ms > 0 {
 			go func() {
 				time.Sleep(time.Duration(ms) * time.Millisecond)
@@ -213,7 +222,7 @@ func runLookupNode(seed uint64) {
 		})
 		cancel()
 		dur := w.now() - t0
-		wasCancelled := cancelled && dur >= time.Duration(p.cfg("cancel_ms"))*time.Millisecond
+		wasCancelled := p.cfg("precancel") == 1 || (cancelled && dur >= time.Duration(p.cfg("cancel_ms"))*time.Millisecond)
 		w.op("lookup#%d peers=%d start=%d hostile=%d cancel=%dms -> %d results, %d queries, max %d in flight, %v virtual", li, np, len(startSeen), p.cfg("hostile"), p.cfg("cancel_ms"), len(result), len(log), maxInflight, dur.Round(time.Millisecond))
 		w.abstract("lookup np=%d st=%d h=%d c=%v q=%d r=%d", np, len(startSeen), p.cfg("hostile"), wasCancelled, len(log), len(result))
 		if !okc {
